@@ -40,6 +40,10 @@ func checkRead(w *world, st map[*xferDir]*dirState, d *xferDir, r *readRec) {
 		prop = "C01"
 	}
 	where := fmt.Sprintf("stream %d (%s->%s, unordered=%v rel=%d/%d)", d.sid, w.eps[d.from].name, w.eps[1-d.from].name, d.unordered, d.relType, d.relVal)
+	if r.truncated {
+		w.violate("C18", "short-buffer-truncated", "%s: a read into a %d-byte buffer returned the first %d bytes of a longer message with err=nil instead of ErrShortBuffer (%s)", where, r.bufLen, r.n, r.bad)
+		return
+	}
 	if r.bad != "" {
 		w.violate(prop, "altered", "%s: read #%d: %s", where, ds.nOK, r.bad)
 		return
